@@ -50,7 +50,9 @@ def families(api, quick=False):
         ("sparse.laplace_beltrami", lambda d, t: b.sparse.laplace_beltrami(d, d, t), "p1", "p1"),
     ]
     if quick:
-        keep = ("laplace.single_layer", "laplace.double_layer", "laplace.hypersingular", "helmholtz.single_layer", "maxwell.electric_field", "sparse.identity")
+        # one family per assembly function of the library (default scalar, three hypersingular, two Maxwell, sparse) + a kernel using normals
+        keep = ("laplace.single_layer", "laplace.double_layer", "laplace.hypersingular", "helmholtz.hypersingular", "modified_helmholtz.hypersingular",
+                "maxwell.electric_field", "maxwell.magnetic_field", "sparse.identity", "sparse.laplace_beltrami")
         out = [f for f in out if f[0] in keep]
     return out
 
@@ -119,7 +121,7 @@ def body():
                     key = (name, kd, kt)
                     try:
                         if key not in Adisc:
-                            Adisc[key] = fac(disc[kd], disc[kt]).weak_form().to_dense()
+                            Adisc[key] = np.asarray(fac(disc[kd], disc[kt]).weak_form().to_dense())
                     except Exception as exc:
                         chk.violation("congruence:%s:exception" % name, "%s on the element-wise spaces (%s, %s) of %s raises %s: %s" % (name, kd, kt, gkey, type(exc).__name__, exc), {"grid": gkey})
                         continue
@@ -132,7 +134,7 @@ def body():
                         if cd == "same":
                             spt, st, obt = spd, sd, obd
                         try:
-                            A = fac(spd, spt).weak_form().to_dense()
+                            A = np.asarray(fac(spd, spt).weak_form().to_dense())
                         except Exception as exc:
                             chk.violation("congruence:%s:exception" % name, "%s(domain %s, dual %s) raises %s: %s" % (name, sd, st, type(exc).__name__, exc), {"domain": sd, "dual": st})
                             continue
